@@ -508,8 +508,9 @@ class SqlImpl(TableImpl):
                 query.partition_by = nd.group_by
 
         elif isinstance(nd, verbs.Ungroup):
-            assert not (query.partition_by and query.group_by)
-            query.partition_by.clear()
+            # `query.group_by` may be non-empty here: a table can be grouped again
+            # after a `summarize` (GROUP BY of the current SELECT) and ungrouped.
+            query.partition_by = []
 
         elif isinstance(nd, verbs.Join):
             right_table, right_query, right_sqa_expr = cls.compile_ast(nd.right, needed_cols)
